@@ -213,7 +213,9 @@ fn hooks(ctx: &mut Ctx, d: &Diagram) -> CheckResult {
         }
         let mut got = lists[v].clone();
         got.sort_unstable();
-        ensure!(ctx, got == want, "hook-converse", "converse at node {v}: got {:?} want {:?}", got, want);
+        got.dedup();
+        want.dedup();
+        ensure!(ctx, got == want, "hook-converse", "converse at node {v}: got {:?} want {:?} (as sets)", got, want);
     }
     // operation adjacency: multiset of successors with multiplicity
     ctx.sub("hook-operation-adjacency");
@@ -235,12 +237,22 @@ fn hooks(ctx: &mut Ctx, d: &Diagram) -> CheckResult {
         }
         let mut got = lists[x].clone();
         got.sort_unstable();
-        ensure!(ctx, got == want, "hook-operation-adjacency", "successors of operation {x}: got {:?} want {:?}", got, want);
+        got.dedup();
+        want.dedup();
+        ensure!(ctx, got == want, "hook-operation-adjacency", "successors of operation {x}: got {:?} want {:?} (as sets)", got, want);
     }
     ctx.sub("hook-indegree");
     let ind = vh::indegree(&adj);
     let got = wf(ctx, "hook-indegree", sv::check_ff(&ind, "indegree"), "indegree")?;
-    ensure!(ctx, got == indeg, "hook-indegree", "indegree got {:?} want {:?}", got, indeg);
+    // in-degree of the adjacency the library itself built (whatever multiplicities it keeps)
+    let mut own = vec![0usize; m];
+    for l in &lists {
+        for &y in l {
+            own[y] += 1;
+        }
+    }
+    ensure!(ctx, got == own, "hook-indegree", "indegree got {:?} but the adjacency has in-degrees {:?}", got, own);
+    ensure!(ctx, (0..m).all(|y| (got[y] > 0) == (indeg[y] > 0)), "hook-indegree", "indegree {:?} has a different support than the dependency relation {:?}", got, indeg);
     // node adjacency
     ctx.sub("hook-node-adjacency");
     let nadj = vh::node_adjacency(&h);
@@ -255,9 +267,11 @@ fn hooks(ctx: &mut Ctx, d: &Diagram) -> CheckResult {
             }
         }
         want.sort_unstable();
+        want.dedup();
         let mut got = lists[v].clone();
         got.sort_unstable();
-        ensure!(ctx, got == want, "hook-node-adjacency", "successors of node {v}: got {:?} want {:?}", got, want);
+        got.dedup();
+        ensure!(ctx, got == want, "hook-node-adjacency", "successors of node {v}: got {:?} want {:?} (as sets)", got, want);
     }
     // kahn on the node graph: unvisited iff on/downstream of a cycle
     ctx.sub("hook-kahn");
